@@ -564,7 +564,12 @@ def d3_validators(ctx, idx):
                 if sliced:
                     r.violation(C + ': loop over ' + what, 'only part of the %s is examined (`%s`)' % (what, short(node.iter)), where)
                 elif kind == 'for':
-                    exits = [e for e in lib.loop_has_early_exit(node) if not isinstance(e, ast.Raise)]
+                    exits = [e for e in lib.loop_has_early_exit(node) if not isinstance(e, (ast.Raise, ast.Continue))]
+                    conts = [e for e in lib.loop_has_early_exit(node) if isinstance(e, ast.Continue)]
+                    if conts and not exits:
+                        r.undecided(C + ': loop over ' + what, '`continue` inside the loop over the %s: which items it skips is not analysed'
+                                    % what, lib.loc(fi, conts[0]))
+                        continue
                     inner_loops = [b[3] for b in binds if b[2] == 'for' and b[3] is not node and any(a is node for a in ancestors(b[3]))]
                     ids = {id(n) for il in inner_loops for n in ast.walk(il)}
                     exits = [e for e in exits if id(e) not in ids]
@@ -669,7 +674,9 @@ def d3_validators(ctx, idx):
                 r.check(ok, C + ': error', 'raises %s' % cn, 'raises %s, which is not a student-facing error' % cn, where)
                 if fname == 'validate_required_functions_used':
                     if loop is not None:
-                        exits = [e for e in lib.loop_has_early_exit(loop) if not isinstance(e, ast.Raise)]
+                        # `continue` goes on with the next required function (its effect on THIS item is part of the reach
+                        # condition above); only break / return leave the loop before all items are visited
+                        exits = [e for e in lib.loop_has_early_exit(loop) if not isinstance(e, (ast.Raise, ast.Continue))]
                         r.check(not exits, C + ': loop', 'every required function is examined', 'the loop is left early (`%s`): only the '
                                 'first required function is enforced' % (short(exits[0]) if exits else ''),
                                 lib.loc(fi, exits[0] if exits else loop))
@@ -776,7 +783,7 @@ def _closure_exprs(prov, name, limit=40):
     return out
 
 
-def _blacklist_model(r, fi, name, with_siblings, bl, loop, prov, where):
+def _blacklist_model(r, fi, name, with_siblings, bl, loop, prov, where, idx_=None):
     """Set algebra of the black-list on a model: instructor_vars = [one sampled, one not sampled], samples hold an ordinary
     variable, the sampled instructor variable and (FormulaGrader) both sibling names, which are always sampled."""
     construct = name + ': black-list [content]'
@@ -831,7 +838,7 @@ def _blacklist_model(r, fi, name, with_siblings, bl, loop, prov, where):
         if touches(st):
             pre.append(st)
     try:
-        mev.run(pre, env)
+        mev.run([fl.inline_expr_helpers(idx_, fi, st) for st in pre] if idx_ is not None else pre, env)
         got = env.get(bl)
         if not isinstance(got, (list, set, tuple)):
             raise mev.Unsupported('black-list is not a list')
@@ -884,7 +891,7 @@ def _scrub_by_manager(r, idx, fi, name, with_siblings, managers, loop, cfg, a_no
         return
     r.ok(name + ': deletion', 'entering `%s` removes every name of %s from %s' % (short(m.item.context_expr, 60), bl.id, vscope), where)
     prov = fl.Prov(fi.node)
-    flows = _closure_exprs(prov, bl.id)
+    flows = [fl.inline_expr_helpers(idx, fi, e) for e in _closure_exprs(prov, bl.id)]
     if any(lib.mentions_config(e, 'instructor_vars') for e in flows):
         r.ok(name + ': black-list [instructor_vars]', "built from config['instructor_vars']", where)
     else:
@@ -896,7 +903,7 @@ def _scrub_by_manager(r, idx, fi, name, with_siblings, managers, loop, cfg, a_no
         else:
             fl.absent(r, idx, name + ': black-list [siblings]', 'the sibling variable names no longer flow into the black-list `%s`: a '
                       'student can refer to sibling_N, i.e. to another input box, in this answer' % bl.id, where)
-    _blacklist_model(r, fi, name, with_siblings, bl.id, loop, prov, where)
+    _blacklist_model(r, fi, name, with_siblings, bl.id, loop, prov, where, idx)
     inside = any(a is m.node for a in ancestors(sc)) and not any(sc is x for it in m.node.items for x in ast.walk(it.context_expr))
     w_nodes = [n for n in cfg.nodes_of(m.node) if n.kind == 'with']
     if inside:
@@ -1020,7 +1027,7 @@ def d4_scrub(ctx, idx):
             r.ok(name + ': deletion', 'for %s in %s: del %s[%s]' % (kv, bl.id, vscope, kv), where)
             # (i) the black-list content
             prov = fl.Prov(fi.node)
-            flows = _closure_exprs(prov, bl.id)
+            flows = [fl.inline_expr_helpers(idx, fi, e) for e in _closure_exprs(prov, bl.id)]
             has_instr = any(lib.mentions_config(e, 'instructor_vars') for e in flows)
             if has_instr:
                 r.ok(name + ': black-list [instructor_vars]', "built from config['instructor_vars']", lib.loc(fi, dloop))
@@ -1036,7 +1043,7 @@ def d4_scrub(ctx, idx):
                     fl.absent(r, idx, name + ': black-list [siblings]',
                               'the sibling variable names no longer flow into the black-list `%s`: a student can refer to sibling_N, i.e. '
                               'to another input box, in this answer' % bl.id, lib.loc(fi, dloop))
-            _blacklist_model(r, fi, name, q == FGC, bl.id, loop, prov, lib.loc(fi, dloop))
+            _blacklist_model(r, fi, name, q == FGC, bl.id, loop, prov, lib.loc(fi, dloop), idx)
             # the black-list is complete before the sampling loop starts
             fills = [n for n in walk_own(fi.node) if isinstance(n, (ast.Call, ast.AugAssign, ast.Assign)) and (
                 (isinstance(n, ast.Call) and isinstance(n.func, ast.Attribute) and n.func.attr in ('append', 'extend')
@@ -1145,6 +1152,46 @@ def d5_scope(ctx, idx):
                     others = [o for o in want if o != pn and nf.match('%s not in %s' % (v, o), pred) is not None]
                     if others:
                         found[pn] = (t, x, 'the %s used are looked up in `%s` instead of `%s`' % (pn, others[0], pn))
+        # the same three tests written as ONE loop over a literal table of rows (names used, scope, ..., error class)
+        if not found:
+            lenv = lib.local_env(f.node)
+            fenv = fl.flat_env(f.node)
+            for loop in [l for l in lib.loops_of(f.node) if isinstance(l, ast.For) and isinstance(l.target, (ast.Tuple, ast.List))
+                         and all(isinstance(e, ast.Name) for e in l.target.elts)]:
+                table = fl.expand(loop.iter, fenv)
+                if not (isinstance(table, (ast.List, ast.Tuple)) and table.elts and
+                        all(isinstance(row, (ast.Tuple, ast.List)) and len(row.elts) == len(loop.target.elts) for row in table.elts)):
+                    continue
+                for row in table.elts:
+                    renv = {t.id: v for t, v in zip(loop.target.elts, row.elts)}
+                    for x in [n for n in ast.walk(loop) if isinstance(n, ast.Raise)]:
+                        conj = fl.reach_condition(x, f.node)
+                        if len(conj) != 1:
+                            continue
+                        cond = nf.subst(fl.expand(conj[0], lenv), renv)
+                        view = fl.exists_view(cond, {})
+                        if view is None:
+                            continue
+                        seq, v, pred = view
+                        seq_u, _ = fl.unwrap_seq(seq)
+                        while isinstance(seq_u, ast.Call) and nf.callee_name(seq_u) in ('set', 'frozenset', 'sorted') and len(seq_u.args) == 1:
+                            seq_u = seq_u.args[0]
+                        x2 = ast.Raise(exc=nf.subst(x.exc, renv), cause=None)
+                        ast.copy_location(x2, x)
+                        for pn, (attr, _) in want.items():
+                            if nf.match('self.%s' % attr, seq_u) is None:
+                                continue
+                            if nf.match('%s not in %s' % (v, pn), pred) is not None:
+                                found[pn] = (loop, x2, True)
+                            elif nf.match('%s in %s' % (v, pn), pred) is not None:
+                                found[pn] = (loop, x2, 'the test is inverted (`%s`): names that ARE in the scope are reported and unknown '
+                                             'names pass' % unparse(pred))
+                            else:
+                                others = [o for o in want if o != pn and nf.match('%s not in %s' % (v, o), pred) is not None]
+                                if others:
+                                    found[pn] = (loop, x2, 'the %s used are looked up in `%s` instead of `%s`' % (pn, others[0], pn))
+                if found and any(not isinstance(e, (ast.Raise, ast.Continue)) for e in lib.loop_has_early_exit(loop)):
+                    found.clear()       # a break/return inside the table loop: rows may be skipped -> not recognised
         for pn, (attr, classes) in want.items():
             if pn not in found:
                 sev = r.violation if pn != 'suffixes' else r.undecided
@@ -1375,6 +1422,8 @@ BENIGN = [
     Benign('limits-in-one-comprehension', IG, "        lower, lower_used = evaluator(lower_str,\n                                      variables=varscope,\n                                      functions=funcscope,\n                                      suffixes=self.suffixes,\n                                      allow_inf=True)\n        upper, upper_used = evaluator(upper_str,\n                                      variables=varscope,\n                                      functions=funcscope,\n                                      suffixes=self.suffixes,\n                                      allow_inf=True)\n        expression_used = parse(expression)\n        \n        used_funcs = lower_used.functions_used.union(upper_used.functions_used, expression_used.functions_used)\n",
            "        (lower, lower_used), (upper, upper_used) = [evaluator(limit_str, variables=varscope, functions=funcscope, suffixes=self.suffixes, allow_inf=True) for limit_str in (lower_str, upper_str)]\n        used_funcs = set().union(lower_used.functions_used, upper_used.functions_used, parse(expression).functions_used)\n"),
     Benign('bad-vars-set-difference', EXPR, "bad_vars = set(var for var in self.variables_used if var not in variables)", "bad_vars = set(self.variables_used).difference(variables)"),
+    Benign('required-guard-clause-continue', MH, "        if func not in used_funcs:\n            msg = \"Invalid Input: Answer must contain the function {}\"\n            raise InvalidInput(msg.format(func))\n",
+           "        if func in used_funcs:\n            continue\n        msg = \"Invalid Input: Answer must contain the function {}\"\n        raise InvalidInput(msg.format(func))\n"),
     Benign('check-scope-keywords', EXPR, "        self.check_scope(variables, functions, suffixes)\n\n        # metadata_dict",
            "        self.check_scope(functions=functions, variables=variables, suffixes=suffixes)\n\n        # metadata_dict"),
 ]
